@@ -429,6 +429,10 @@ def search_c03():
         if out.shape != want.shape or not np.allclose(out, want, atol=1e-9):
             return _fail('compare_correlation', inp, out.tolist(), want.tolist(),
                          'entry (i,k) is not the Pearson correlation of RDM i and RDM k')
+        if not (np.array_equal(r1.dissimilarities, A) and np.array_equal(r2.dissimilarities, B)):
+            return _fail('compare_cosine / compare_correlation', inp,
+                         dict(rdm1=r1.dissimilarities.tolist(), rdm2=r2.dissimilarities.tolist()), inp,
+                         'comparing two RDMs objects changed their dissimilarities')
     return None
 
 
